@@ -129,14 +129,14 @@ func TestVerif_C03_Wrappers(t *testing.T) {
 			id2 = append(id2, 1)
 		case "msg":
 			if len(msg2) > 0 {
-				msg2[gen.Int(t, "pos", 0, len(msg2)-1)] ^= 1
+				msg2[gen.Uniform(t, "pos", 0, len(msg2)-1)] ^= 1
 			} else {
 				msg2 = []byte{0}
 			}
 		case "r":
-			r[gen.Int(t, "pos", 0, 31)] ^= 0x10
+			r[gen.Uniform(t, "pos", 0, 31)] ^= 0x10
 		case "s":
-			s[gen.Int(t, "pos", 0, 31)] ^= 0x10
+			s[gen.Uniform(t, "pos", 0, 31)] ^= 0x10
 		case "key":
 			px, py, _ = sm2gen.Pub(new(big.Int).Add(d, big.NewInt(1)))
 		}
